@@ -75,6 +75,7 @@ type op struct {
 type dataset struct {
 	T0      int64    `json:"t0"`
 	NShards int      `json:"nshards"`
+	Shape   string   `json:"shape,omitempty"`
 	Series  []string `json:"series"`
 	Ops     []op     `json:"ops"`
 }
@@ -206,6 +207,21 @@ func genDataset(t *rapid.T) *dataset {
 	d.T0 = rapid.SampledFrom(t0Pool).Draw(t, "t0")
 	d.NShards = rapid.IntRange(2, 4).Draw(t, "nshards")
 	dom := seriesDomain()
+	// shape: "spread" = 3..9 series anywhere in the domain (about two per measurement, a tag key
+	// seldom has several values inside one measurement); "dense" = the same number of series
+	// inside one or two measurements, so that a measurement has several values per tag key and
+	// several series per value (what value-by-value scans with per-series authorization need)
+	d.Shape = rapid.SampledFrom([]string{"spread", "dense", "dense"}).Draw(t, "shape")
+	if d.Shape == "dense" {
+		ms := rapid.SliceOfNDistinct(rapid.SampledFrom(measurements), 1, 2, rapid.ID[string]).Draw(t, "densem")
+		var sub []string
+		for _, sk := range dom {
+			if name, _ := tagsOf(sk); inList(ms, name) {
+				sub = append(sub, sk)
+			}
+		}
+		dom = sub
+	}
 	idx := rapid.SliceOfNDistinct(rapid.IntRange(0, len(dom)-1), 3, 9, rapid.ID[int]).Draw(t, "series")
 	sort.Ints(idx)
 	for _, i := range idx {
